@@ -344,3 +344,6 @@ def run(ctx: Ctx) -> None:
     if ctx.report.prop == "C15":
         from .common import share_rules as _share8
         _share8(ctx, "C12", "C15.R13", ['C12.R1'], 'a blob stored by a run that stopped before the path commit is fetched through the object cache by the later full run: the cache inserts it under a None test only (the truth value of a table or array blob raises)')
+    from .common import enum_listing_in_declaration_order as _elo
+    rep.rule("C15.R14", "the list of stages that `_parse_stages` checks user lists against is the declaration order of the stages (analysis, store_inspect, eval, store_commit, path_commit): the documented prefixes are accepted and mean what they say")
+    rep.floor("C15.R14", _elo(ctx, "C15.R14", "dds.structures.ProcessingStage", "dds_stages=['analysis', 'store_inspect', 'eval', 'store_commit'] - a documented prefix - is refused ('Wrong order'), and [.., 'eval', 'path_commit'] commits the paths of a run that stored nothing"), 1)
